@@ -1,5 +1,6 @@
 import Flowjaxv.Proofs.ArgCheck
 import Flowjaxv.Proofs.CtorsGen
+import Flowjaxv.Proofs.WrapperGen
 /-!
 # C13 — malformed inputs are rejected, never silently broadcast
 
@@ -615,5 +616,110 @@ theorem gen_ctor_instances :
    by decide, by decide, by decide, by decide, by decide, by decide, by decide, by decide, by decide⟩
 
 end Regenerated
+
+section WrapperGen
+/-! ## The argument-checking wrapper REGENERATED AS A WHOLE (`Gen/WrapperGen.lean`, translator `py2wrap.py`)
+
+`_unwrap_check_and_cast(method)` — the `@functools.wraps` closure `wrapper(bijection, x, condition=None)`, its inner functions, and the
+final `method(unwrap(bijection), _check_x(x), _check_condition(condition))` with the arguments evaluated left to right — and
+`AbstractBijection.__init_subclass__` are generated from `flowjax/bijections/bijection.py` on every run, in exception-valued form.
+`method` is ANY function of the unwrapped bijection and the two checked arguments. -/
+open Gen.WrapperGen
+
+/-- **generated wrapper = hand model** (`ArgCheck.wrapperCheckVal`): for every wrapped method, every declared shape / cond_shape,
+every `x` and `condition` (None, an array of any shape, something not array-like) the generated closure raises what the model
+raises — `x` is checked before the condition — and otherwise calls the method with the unwrapped bijection and the model's values. -/
+theorem gen_wrapper_eq_model {ρ : Type} (method : PyCtor.SB → Val → Val → Except Err ρ) (shape : Shape)
+    (condShape : Option Shape) (x cond : Val) :
+    unwrapCheckAndCast method ⟨shape, condShape⟩ x cond =
+      match wrapperCheckVal shape condShape x cond with
+      | .error e => .error e
+      | .ok (x', c') => method ⟨shape, condShape⟩ x' c' :=
+  WrapperGenPf.gen_wrapper_eq_model method shape condShape x cond
+
+/-- `check_accepts_iff` on the GENERATED wrapper: the wrapped method is reached (here: a method that records what it is called with)
+iff `x` is an array of exactly the declared shape and either the bijection is unconditional — then the body receives
+`condition = None` whatever was supplied — or the condition is an array of exactly `cond_shape`, forwarded unchanged; the method
+always receives the bijection itself (unwrapped). All shapes of all ranks. -/
+theorem gen_check_accepts_iff (shape : Shape) (condShape : Option Shape) (x cond : Val) (r : PyCtor.SB × Val × Val) :
+    unwrapCheckAndCast (fun b x' c' => Except.ok (b, x', c')) ⟨shape, condShape⟩ x cond = Except.ok r ↔
+      x = .arr shape ∧ r.1 = ⟨shape, condShape⟩ ∧
+        ((condShape = none ∧ r.2 = (x, .none)) ∨ (∃ s, condShape = some s ∧ cond = .arr s ∧ r.2 = (x, cond))) := by
+  rw [gen_wrapper_eq_model]
+  obtain ⟨rb, rx, rc⟩ := r
+  have key := wrapperCheckVal_ok_iff shape condShape x cond (rx, rc)
+  cases hw : wrapperCheckVal shape condShape x cond with
+  | error e =>
+    rw [hw] at key
+    simp only [reduceCtorEq, false_iff] at key
+    simp only [reduceCtorEq, false_iff]
+    rintro ⟨h1, _, h3⟩
+    exact key ⟨h1, h3⟩
+  | ok v =>
+    obtain ⟨vx, vc⟩ := v
+    rw [hw] at key
+    simp only [Except.ok.injEq, Prod.mk.injEq] at key ⊢
+    constructor
+    · rintro ⟨rfl, rfl, rfl⟩
+      obtain ⟨h1, h3⟩ := key.mp ⟨rfl, rfl⟩
+      exact ⟨h1, rfl, h3⟩
+    · rintro ⟨h1, h2, h3⟩
+      obtain ⟨e1, e2⟩ := key.mpr ⟨h1, h3⟩
+      exact ⟨h2.symm, e1, e2⟩
+
+/-- … on array arguments, in the form of `check_accepts_iff`: the generated wrapper returns normally IFF `x` has exactly the
+declared shape and (the bijection is unconditional, or a condition of exactly `cond_shape` is given). -/
+theorem gen_check_accepts_iff_shapes (shape : Shape) (condShape : Option Shape) (xShape : Shape) (cond : Option Shape) :
+    unwrapCheckAndCast (fun _ _ _ => Except.ok ()) ⟨shape, condShape⟩ (.arr xShape)
+        (match cond with | none => .none | some k => .arr k) = Except.ok () ↔
+      xShape = shape ∧ (condShape = none ∨ cond = condShape) := by
+  rw [gen_wrapper_eq_model, ← check_accepts_iff, ← wrapper_levels_agree]
+  cases wrapperCheckVal shape condShape (Val.arr xShape) (match cond with | none => .none | some k => .arr k) with
+  | error e => simp [Except.map]
+  | ok v => simp [Except.map]
+
+/-- every rejection of the generated wrapper is a `ValueError` or a `TypeError`, and then the method is NOT called: the result does
+not depend on the method -/
+theorem gen_wrapper_error_class {ρ : Type} (method : PyCtor.SB → Val → Val → Except Err ρ) (shape : Shape)
+    (condShape : Option Shape) (x cond : Val) (e : Err) (h : wrapperCheckVal shape condShape x cond = .error e) :
+    unwrapCheckAndCast method ⟨shape, condShape⟩ x cond = .error e ∧ (e = .valueError ∨ e = .typeError) := by
+  rw [gen_wrapper_eq_model, h]
+  exact ⟨rfl, wrapperCheckVal_err shape condShape x cond e h⟩
+
+/-- **the generated `__init_subclass__`**, for every class dictionary: afterwards a name is bound to `_unwrap_check_and_cast(o)` exactly
+when it is one of the four method names, the class body binds it (to `o`) and `o` has no `__isabstractmethod__`; every other binding
+is untouched and nothing is added. -/
+theorem gen_init_subclass_spec (cls : PyCls.Cls) (m : String) :
+    PyCls.lookup (initSubclass cls) m
+      = match PyCls.lookup cls m with
+        | some o => if m ∈ fourMethods ∧ PyCls.hasattr o "__isabstractmethod__" = false then some (.wrapped o) else some o
+        | none => none :=
+  WrapperGenPf.gen_init_subclass_spec cls m
+
+/-- the class body of a row of the regenerated class table, as the hook sees it -/
+def rowDict (r : ClassRow) : PyCls.Cls :=
+  r.plainDefs.map (fun n => (n, PyCls.Obj.plain n)) ++ r.abstractDefs.map (fun n => (n, PyCls.Obj.abstract n))
+
+/-- the generated hook run on every concrete class of the regenerated table wraps each of the four methods the class defines; on
+the abstract root it wraps none (finite table: kernel evaluation). -/
+theorem gen_init_subclass_table :
+    (∀ r ∈ bijectionTable, r.name ≠ rootName → ∀ m ∈ r.plainDefs, m ∈ fourMethods →
+      ((PyCls.lookup (initSubclass (rowDict r)) m).map PyCls.Obj.isWrapped) = some true) ∧
+    (∀ r ∈ bijectionTable, r.name = rootName → ∀ m ∈ fourMethods,
+      ((PyCls.lookup (initSubclass (rowDict r)) m).map PyCls.Obj.isWrapped) = some false) := by decide
+
+/-- non-vacuity and ORDER: a non-array `x` together with a missing condition is the `TypeError` of `x` (checked first); a missing
+condition alone is a `ValueError`; an unconditional bijection drops a superfluous condition; the default of `condition` is `None`. -/
+theorem gen_wrapper_instances :
+    let rec_ := fun (b : PyCtor.SB) (x' c' : Val) => (Except.ok (b, x', c') : Except Err (PyCtor.SB × Val × Val))
+    unwrapCheckAndCast rec_ ⟨[3], some [2]⟩ .notArrayLike .none = .error .typeError ∧
+    unwrapCheckAndCast rec_ ⟨[3], some [2]⟩ (.arr [3]) wrapperConditionDefault = .error .valueError ∧
+    unwrapCheckAndCast rec_ ⟨[3], some [2]⟩ (.arr [3]) .notArrayLike = .error .typeError ∧
+    unwrapCheckAndCast rec_ ⟨[3], some [2]⟩ (.arr [1, 3]) (.arr [2]) = .error .valueError ∧
+    unwrapCheckAndCast rec_ ⟨[3], some [2]⟩ (.arr [3]) (.arr [2]) = .ok (⟨[3], some [2]⟩, .arr [3], .arr [2]) ∧
+    unwrapCheckAndCast rec_ ⟨[3], none⟩ (.arr [3]) (.arr [7]) = .ok (⟨[3], none⟩, .arr [3], .none) ∧
+    unwrapCheckAndCast rec_ ⟨[3], none⟩ (.arr [3]) .notArrayLike = .ok (⟨[3], none⟩, .arr [3], .none) := by decide
+
+end WrapperGen
 
 end C13
